@@ -87,7 +87,7 @@ type streamEndNotSupportedData struct {
 
 func (s *stream) setOffset(vbID uint16, offset *models.Offset, dirty bool) {
 	if s.vbIDRange.In(vbID) {
-		if current, ok := s.offsets.Load(vbID); ok && current.SeqNo > offset.SeqNo {
+		if current, ok := s.offsets.Load(vbID); ok && current.SeqNo >= offset.SeqNo {
 			return
 		}
 		s.offsets.Store(vbID, offset)
